@@ -207,7 +207,9 @@ Fixpoint known_seq (chroms : list (list (list Z))) (d : list Z) : list (list (li
   match chroms with [] => ([], d) | c :: t => let '(r, d1) := chr_known c d in let '(rs, d2) := known_seq t d1 in (r :: rs, d2) end.
 Definition not_aligned_line (unaligned stat : Z) : Z := if 0 <? unaligned then unaligned else stat.
 
-(* current code; pool = (threads > 1): forked workers start from the main process's set and the main process never learns theirs *)
+(* current code; pool = (threads > 1): forked workers start from the main process's set and the main process never learns theirs.  In pool
+   mode every chromosome is given the main process's set: that a worker's own additions (isoforms of the chromosomes it ran before) have no
+   effect is the frame lemma detected_frame / detected_schedule_independent, isoform ids being unique in the annotation *)
 Definition process_sample_cur (st : polya_strategy) (pool : bool) (e : experiment) (g : gstate) : eout * gstate :=
   let requires := set_strategy (e_polya_high e) st in
   let mi := set_strategy (g_mono_intronic g || requires) st in
